@@ -173,6 +173,9 @@ def register_unit_execute(R, prop):
                                                     "result[-1].status.name == 'SKIP' and phase.skip_reason is not None and phase.skip_reason.name == 'NOTHING_TO_TEST')",
         # the consumer may give up on an empty queue only when no worker can produce anything any more
         "C05_stops_draining_only_when_all_workers_dead": "implies(ghost('last_get') == 'Empty', forall(0, length(ghost('pool').workers), lambda j: not is_alive(elem(ghost('pool').workers, j))))",
+        # C11: "only when the run is interrupted may an announced scenario remain unclosed": without a stop the suite is closed only after every worker
+        # (each of which closes what it announced: worker_task / run_test contracts) has exited
+        "C11_uninterrupted_suite_closed_only_after_all_workers_exited": "implies(ghost('last_get') == 'Empty', forall(0, length(ghost('pool').workers), lambda j: not is_alive(elem(ghost('pool').workers, j))))",
         "C12_count_failure_once_per_failed_scenario": "ghost('counted') == ghost('should_count')",
         "C12_interrupt_stops_engine": "implies(ghost('last_get') == 'KeyboardInterrupt', engine.control.stop_event.flag is True and is_instance(result[-3], 'Interrupted'))",
     }
